@@ -27,7 +27,12 @@ pub struct Ff {
 }
 
 impl Ff {
-    pub fn open(path: &Path, max_file_size: u64, compress: bool, limit: Option<usize>) -> io::Result<Ff> {
+    pub fn open(
+        path: &Path,
+        max_file_size: u64,
+        compress: bool,
+        limit: Option<usize>,
+    ) -> io::Result<Ff> {
         let mut b = FreezerFilesBuilder::new(path.to_path_buf())
             .max_file_size(max_file_size)
             .enable_compression(compress);
